@@ -279,6 +279,13 @@ def build_api(a: Any, engines: list[Any], nest: bool = False, depth: int = 0, co
         right = Quantity(right[1]) if op in ("+", "-", "min", "max") else right[1]
     if reuse & 1 and is_builder(left):
         _ = left - engines[0]  # another expression over the same sub-expression object
+    if reuse & 4 and is_builder(left):
+        # the program also builds the sub-expression into a formula of its own - under the name the enclosing formula
+        # gets later (names are free labels)
+        _ = left.build("f")
+    if reuse & 4 and is_builder(right):
+        _ = right.build("f", nones_are_zeros=True)
+        _ = right.build("f")
     if op == "+":
         res = left + right
     elif op == "-":
